@@ -649,6 +649,31 @@ func (m *RModel) valueMethod(name string, args []Value) (Value, bool) {
 			return int64(v.n), true
 		}
 		panic(rpanic("reflect: call of reflect.Value.Len on %s Value", kindOf(r.t)))
+	case "Index":
+		need()
+		i := int(m.it.concretizeIndex(args[1]))
+		switch v := r.load().(type) {
+		case []Value:
+			if i < 0 || i >= len(v) {
+				panic(rpanic("reflect: slice index out of range"))
+			}
+			et := r.t.Underlying().(*types.Slice).Elem()
+			return RValue{valid: true, t: et, p: &v[i]}, true
+		case Array:
+			if i < 0 || i >= len(v) {
+				panic(rpanic("reflect: array index out of range"))
+			}
+			et := r.t.Underlying().(*types.Array).Elem()
+			return box(et, copyVal(v[i])), true
+		}
+		panic(rpanic("reflect: call of reflect.Value.Index on %s Value", kindOf(r.t)))
+	case "Convert":
+		need()
+		t := m.typeArg(args[1])
+		if m.assignable(r.t, t) {
+			return box(t, m.asStatic(t, r)), true
+		}
+		panic(abortPath{"reflect.Value.Convert between different types"})
 	case "Int":
 		need()
 		return r.load(), true
@@ -712,6 +737,15 @@ func (m *RModel) external(fn *ssa.Function, name string, args []Value) (Value, b
 			panic(rpanic("reflect: call of MakeFunc with non-Func type"))
 		}
 		return box(t, &MakeFuncObj{t: sig, tt: t, fn: args[1]}), true
+	case "reflect.Indirect":
+		r, _ := args[0].(RValue)
+		if r.valid {
+			if _, ok := r.t.Underlying().(*types.Pointer); ok {
+				v, _ := m.valueMethod("Elem", []Value{r})
+				return v, true
+			}
+		}
+		return r, true
 	case "reflect.DeepEqual":
 		return fmt.Sprint(m.toHost(args[0], 0)) == fmt.Sprint(m.toHost(args[1], 0)), true
 	case "(reflect.Kind).String":
